@@ -414,10 +414,10 @@ def model_sequences(rep, ex: Explorer, nworlds=2, only=None):
         total += n
         if bad is not None:
             g, w, env = bad
-            rep.violation(rule, site, name, "the incremental model compiles to what the specification gives for its current conditionals", extracted=(f"under {_show_env(env)}: " if env else "") + g[:300], required=w[:300], function=site)
+            rep.violation(rule, site, f"{name} ({nworlds} world{'s' if nworlds > 1 else ''})", "the incremental model compiles to what the specification gives for its current conditionals", extracted=(f"under {_show_env(env)}: " if env else "") + g[:300], required=w[:300], function=site)
         else:
-            rep.ok(rule, site, name, f"to_compilation() equals the specification for {list(final)} on all {len(paths)} paths / {n} assignments ({nworlds} worlds)")
-    rep.floor("REV.incremental assignments", total, 9 * len(SEQUENCES) if not only else 9)
+            rep.ok(rule, site, f"{name} ({nworlds} world{'s' if nworlds > 1 else ''})", f"to_compilation() equals the specification for {list(final)} on all {len(paths)} paths / {n} assignments ({nworlds} worlds)")
+    rep.floor(f"REV.incremental assignments ({nworlds} worlds)", total, 9 * (len(only) if only else len(SEQUENCES)))
 
 
 def wsat_meaning(rep, ex: Explorer):
@@ -757,11 +757,396 @@ def translate(rep, ex: Explorer):
     rep.floor("translate_to_csp paths", n, 8)
 
 
-def check_all(rep, ex: Explorer):
+def encoding(rep, ex: Explorer):
+    """REV.relation [acceptance], C.minima-roles, C.empty-minimum on c_revision.encoding: per index i with a
+    falsifying world: mv_i = min vSums[i], mf_i = min fSums[i], gamma-_i − gamma+_i > mv_i − mf_i; no constraint (and
+    no minimum over nothing) for an index without falsifying world."""
+    from .cinf import _name_prefix, _name_index
+
+    qual = f"{MOD}.encoding"
+    site = fn_label(ex.prog, qual)
+
+    def sums(I, tag):
+        b = I.fresh_var("n")
+        return I.alloc(HDict(each=[("each", b, IDX, PTRUE, ElemV(b, "key"), ElemV((tag, b), "coll", "term"))]))
+
+    def setup(I):
+        b = I.fresh_var("n")
+        gam = I.alloc(HDict(each=[("each", b, IDX, PTRUE, ElemV(b, "key"), TupleV((LinV(F.lin_term(("P", b)), "term"), LinV(F.lin_term(("M", b)), "term"))))]))
+        return [gam, sums(I, "vsums"), sums(I, "fsums")], {}
+
+    summ = dict(wrappers.SUMMARIES)
+
+    def me_summary(I, fi, args, kwargs, node):
+        I.log("minima_encoding", node, m=args[0], sums=args[1])
+        return I.alloc(HList([("sym", ("minenc", desc(args[0]), desc(args[1])))]))
+
+    summ["inference.c_inference.minima_encoding"] = me_summary
+    paths = ex.run(qual, setup, summaries=summ, key="crev-encoding")
+    n_rel = n_me = 0
+    for p in paths:
+        if p.outcome[0] != "return":
+            rep.violation("REV.relation", site, "outcome", "encoding returns the constraint list", extracted=repr(p.outcome)[:100], required="return", function=site)
+            continue
+        kept = set()
+        rv = view(p.state, p.outcome[1])
+        for ev, Q in iter_events(p.events):
+            if not Q:
+                continue
+            loop_ev, case = Q[-1]
+            evar = loop_ev.evar
+            g = dict(case.guard)
+            ne = g.get(("empty", ("fsums", evar)))
+            if ev.kind == "minima_encoding":
+                n_me += 1
+                sv = ev.sums
+                where = f"{site}:{ev.node.lineno}"
+                is_f = isinstance(sv, ElemV) and sv.var == ("fsums", evar)
+                is_v = isinstance(sv, ElemV) and sv.var == ("vsums", evar)
+                rep.check(is_f or is_v, "REV.relation", where, "sums of the same index", "the minima of index i range over the sums of index i", extracted=repr(sv), required="vSums[i] / fSums[i]", function=site)
+                m = ev.m
+                pre = [_name_prefix(t) for t, c in m.lin[0]] if isinstance(m, LinV) else []
+                idx = [_name_index(t) for t, c in m.lin[0]] if isinstance(m, LinV) else []
+                if is_f:
+                    rep.check(ne is False, "C.empty-minimum", where, "falsifying minimum guarded", "the minimum over the falsifying sums is encoded only when some world falsifies the conditional (a minimum over nothing makes the system unsatisfiable)",
+                              extracted=f"emptiness of fSums[i] {'excluded' if ne is False else 'not excluded'}", required="guarded by fSums[i] non-empty", function=site)
+                    rep.check(pre == ["mf_"], "C.minima-roles", where, "mf over falsifying sums", "mf_i is the minimum over the falsifying sums of index i", extracted=repr(m), required="mf_i", function=site)
+                elif is_v:
+                    rep.check(pre == ["mv_"], "C.minima-roles", where, "mv over verifying sums", "mv_i is the minimum over the verifying sums of index i", extracted=repr(m), required="mv_i", function=site)
+                if pre in (["mf_"], ["mv_"]):
+                    rep.check(idx == [(("elem", evar, "key"),)], "KEY.no-positional", where, f"{pre[0]} index", "the minimum variable is named by the index of its conditional", extracted=repr(idx)[:100], required="index i", function=site)
+            if ev.kind == "list.append" and isinstance(ev.value, FormulaV) and ev.value.f[0] == "rel":
+                n_rel += 1
+                f = ev.value.f
+                terms = dict(f[1][0])
+                mv = [t for t in terms if _name_prefix(t) == "mv_"]
+                mf = [t for t in terms if _name_prefix(t) == "mf_"]
+                ok = (f[2] == ">" and f[1][1] == 0 and len(terms) == 4 and terms.get(("M", evar)) == 1 and terms.get(("P", evar)) == -1
+                      and len(mv) == 1 and len(mf) == 1 and terms[mv[0]] == -1 and terms[mf[0]] == 1)
+                rep.check(ok, "REV.relation", f"{site}:{ev.node.lineno}", "acceptance constraint", "gamma-_i − gamma+_i > mv_i − mf_i: the revised ranking puts the best verifying world strictly below the best falsifying world",
+                          extracted=F.show(f), required="gamma-_i − gamma+_i − mv_i + mf_i > 0", function=site)
+                if mv and mf:
+                    rep.check(_name_index(mv[0]) == _name_index(mf[0]) == (("elem", evar, "key"),), "KEY.no-positional", f"{site}:{ev.node.lineno}", "mv/mf index", "mv and mf of the constraint of index i carry index i",
+                              extracted=f"{_name_index(mv[0])} / {_name_index(mf[0])}", required="i / i", function=site)
+                rep.check(ne is False, "C.empty-minimum", f"{site}:{ev.node.lineno}", "constraint guarded", "the acceptance constraint is stated for indices with a falsifying world", extracted=f"fSums[i] empty: {ne}", required="non-empty", function=site)
+        # the result: per index (with a falsifying world) both minimum encodings and the constraint; nothing unconditional
+        if isinstance(rv, tuple) and rv[0] == "list":
+            kinds = []
+            for sg in rv[1]:
+                if sg[0] in ("each", "each*") and sg[2] == IDX:
+                    gd = sg[3]
+                    kinds.append(show_pred(gd)[:80])
+                else:
+                    kinds.append("unconditional:" + repr(sg)[:60])
+            bad = [k for k in kinds if k.startswith("unconditional")]
+            have = set()
+            for sg in rv[1]:
+                if sg[0] in ("each", "each*") and sg[2] == IDX and sg[3] == ("not", ("empty", ("fsums", sg[1]))):
+                    it = sg[4]
+                    if isinstance(it, tuple) and it[:1] == ("sym",) and it[1][0] == "minenc":
+                        nm = it[1][1]
+                        fam = it[1][2]
+                        have.add((nm[1][1][0] if nm[0] == "isym" else "?", fam[1][0] if isinstance(fam, tuple) and len(fam) > 1 and isinstance(fam[1], tuple) else "?"))
+                    elif isinstance(it, FormulaV):
+                        have.add("rel")
+            want = {("mv_", "vsums"), ("mf_", "fsums"), "rel"}
+            rep.check(have == want, "REV.relation", site, "result holds all three parts", "for an index with a falsifying world the result holds both minimum encodings and the acceptance constraint",
+                      extracted=str(sorted(map(str, have))), required=str(sorted(map(str, want))), function=site)
+            rep.check(not bad, "REV.relation", site, "result", "every constraint belongs to one index of the compilation", extracted="; ".join(bad)[:200] or "per-index items only", required="per-index items", function=site)
+    rep.floor("c_revision.encoding acceptance constraints", n_rel, 1)
+    rep.floor("c_revision.encoding minimum encodings", n_me, 2)
+
+
+# ----------------------------------------------------------------------------------------------
+# solving and the two entry points
+# ----------------------------------------------------------------------------------------------
+def solve(rep, ex: Explorer):
+    """CHECK.three-way, MODEL.extract and the solver scope on solve_and_get_model / solve_pareto_front."""
+    for fn in ("solve_and_get_model", "solve_pareto_front"):
+        qual = f"{MOD}.{fn}"
+        site = fn_label(ex.prog, qual)
+        for which in ("vars", "novars"):
+            def conv(I, fi, args, kwargs, node):
+                I.log("convert", node, args=tuple(args))
+                return I.alloc(HList([("sym", "Z3CSP")]))
+
+            def setup(I, which=which, fn=fn):
+                csp = I.alloc(HList([("sym", "CSP")]))
+                mv = ElemV(("minvars",), "coll", "str") if which == "vars" else I.new_list([])
+                if fn == "solve_pareto_front":
+                    return [csp, mv], {"max_solutions": Sym("maxsol")}
+                return [csp, mv], {}
+
+            summ = dict(wrappers.SUMMARIES)
+            summ[f"{MOD}._convert_csp_to_z3"] = conv
+            paths = ex.run(qual, setup, summaries=summ, key=f"crev-{fn}-{which}")
+            n = 0
+            for p in paths:
+                evs = list(iter_events(p.events))
+                conv_ok = [ev for ev, Q in evs if ev.kind == "convert"]
+                for ev, Q in evs:
+                    if ev.kind == "query":
+                        n += 1
+                        where = f"{site}:{ev.node.lineno}"
+                        items = flat(ev.frames)
+                        rep.check(items == (("f", ("opaque", ("sym", "Z3CSP"))),) and conv_ok, "REV.entry", where, "solver scope", "the solver holds exactly the translated constraint system",
+                                  extracted=show_items(items)[:200], required="the converted csp", function=site)
+                        empty = decided(p, ("empty", ("minvars",)))
+                        if which == "vars" and empty is False:
+                            objs = ev.objectives
+                            oko = ev.api == "z3.Optimize" and len(objs) == 1 and objs[0][0] == "each" and objs[0][2] == ("members", ("minvars",)) and objs[0][3] == PTRUE \
+                                and objs[0][4] == ("minimize", ("isym", ("elem", objs[0][1], "str")))
+                            rep.check(oko, "REV.entry", where, "objectives", "every requested variable is minimised", extracted=repr(objs)[:200], required="minimize(Int(v)) for every v", function=site)
+                            pr = ev.options.get("priority")
+                            rep.check(isinstance(pr, Const) and pr.value == "pareto", "REV.entry", where, "pareto priority", "the objectives are combined in the Pareto sense", extracted=repr(pr), required="priority='pareto'", function=site)
+                        chk = decided(p, ("check", ev.qid))
+                        models = [e for e, Q2 in evs if e.kind == "solver.model" and e.qid == ev.qid]
+                        if chk == "sat":
+                            rep.check(len(models) >= 1, "CHECK.three-way", where, "sat", "a model is read after the check answered sat", extracted=f"{len(models)} read(s)", required=">=1", function=site)
+                        elif chk in ("unsat", "unknown"):
+                            rep.check(not models, "CHECK.three-way", where, chk, "no model is read unless the check answered sat", extracted=f"{len(models)} read(s)", required="0", function=site)
+                            if p.outcome[0] == "return":
+                                rv = p.outcome[1]
+                                if fn == "solve_and_get_model":
+                                    okr = isinstance(rv, Const) and rv.value is None
+                                else:
+                                    vw = view(p.state, rv)
+                                    okr = isinstance(vw, tuple) and vw[0] == "list" and not any(sg[0] == "one" for sg in vw[1])
+                                rep.check(okr, "CHECK.three-way", site, f"result on {chk}", "without a model nothing is returned / added", extracted=repr(rv)[:100], required="None / no new solution", function=site)
+                    if ev.kind == "as_long":
+                        g = dict(Q[-1][1].guard) if Q else {}
+                        okg = g.get(("z3kind", "intvalue", desc(ev.value))) is True
+                        rep.check(okg, "MODEL.extract", f"{site}:{ev.node.lineno}", "integer values only", "as_long() is applied only to integer-valued constants of the model (the optimiser adds Boolean helpers)",
+                                  extracted="guarded by is_int_value" if okg else "unguarded", required="is_int_value(m[d])", function=site)
+                    if ev.kind == "dict.set" and Q and isinstance(ev.key, Sym) and isinstance(ev.key.label, tuple) and ev.key.label[:1] == ("declname",):
+                        b = Q[-1][0].evar
+                        okk = ev.key.label == ("declname", b) and isinstance(ev.value, Sym) and ev.value.label[:1] == ("as_long",) and ev.value.label[1][:1] == ("modelval",) and ev.value.label[1][2] == ("elem", b, "decl")
+                        rep.check(okk, "MODEL.extract", f"{site}:{ev.node.lineno}", "name/value pairing", "each constant's name is paired with its own value", extracted=f"{ev.key!r}: {ev.value!r}"[:160], required="d.name(): m[d]", function=site)
+                if p.outcome[0] == "return" and fn == "solve_and_get_model":
+                    chks = [v for k, v in p.decisions if k[0] == "check"]
+                    if chks and chks[-1] == "sat":
+                        rv = p.outcome[1]
+                        okd = isinstance(rv, Ref) and isinstance(p.state.heap.get(rv.oid), HDict)
+                        rep.check(okd, "REV.entry", site, "result on sat", "a satisfiable system yields the model's values", extracted=repr(rv)[:80], required="a mapping", function=site)
+                if p.outcome[0] == "raise":
+                    rep.violation("REV.entry", site, "outcome", "solving never raises", extracted=repr(p.outcome[1])[:100], required="return", function=site)
+            rep.floor(f"solver checks in {fn} ({which})", n, 1)
+
+
+def _bind(ex, qual, args, kwargs, skip_self=False):
+    fi = ex.prog.function(qual)
+    a = fi.node.args
+    names = [x.arg for x in a.posonlyargs + a.args]
+    if skip_self:
+        names = names[1:]
+    out = dict(zip(names, args))
+    out.update(kwargs)
+    return out
+
+
+def entry(rep, ex: Explorer):
+    """REV.entry on c_revision / c_revision_pareto_front: which compilation is used, argument wiring into the translation
+    (directly or through the incremental model), the variables minimised, the values patched into the result."""
+    REVS = ("members", ("revs",))
+    for fn in ("c_revision", "c_revision_pareto_front"):
+        qual = f"{MOD}.{fn}"
+        site = fn_label(ex.prog, qual)
+        for with_model in (False, True):
+            refs = {}
+
+            def mk(name, ret):
+                def h(I, fi, args, kwargs, node):
+                    I.log("call." + name, node, args=tuple(args), kwargs=dict(kwargs), qual=fi.qualname if fi else name)
+                    return ret(I)
+                return h
+
+            def solve_s(I, fi, args, kwargs, node):
+                I.log("call.solve", node, args=tuple(args), kwargs=dict(kwargs), mv=view(I.state, args[1]) if len(args) > 1 else None)
+                if I.ctx.decide(("solved",)):
+                    d = HDict()
+                    d.sym = ("model",)
+                    return I.alloc(d)
+                return Const(None)
+
+            def front_s(I, fi, args, kwargs, node):
+                I.log("call.solve", node, args=tuple(args), kwargs=dict(kwargs), mv=view(I.state, args[1]) if len(args) > 1 else None)
+                if I.ctx.decide(("solved",)):
+                    d = HDict()
+                    d.sym = ("model",)
+                    return I.new_list([I.alloc(d)])
+                return I.new_list([])
+
+            def setup(I, with_model=with_model):
+                b = I.fresh_var("c")
+                revs = I.alloc(HList([("each", b, REVS, PTRUE, ElemV(b, "cond"))]))
+                rf = preocf._obj(I)
+                model = I.alloc(HObj(CM, {})) if with_model else Const(None)
+                refs["rf"], refs["revs"], refs["model"] = rf, revs, model
+                return [rf, revs], {"gamma_plus_zero": Sym("gpz", "bool"), "fixed_gamma_minus": ElemV(FMD, "optional", "dict"),
+                                    "fixed_gamma_plus": ElemV(FPD, "optional", "dict"), "model": model}
+
+            summ = dict(wrappers.SUMMARIES)
+            for c in ("compile_alt_fast", "compile_alt", "compile"):
+                summ[f"{MOD}.{c}"] = mk("compile", lambda I: Sym("COMPILATION"))
+            summ[f"{MOD}.translate_to_csp"] = mk("translate", lambda I: I.alloc(HList([("sym", "CSP")])))
+            summ[f"{CM}.to_csp"] = mk("to_csp", lambda I: I.alloc(HList([("sym", "CSP")])))
+            summ[f"{MOD}.solve_and_get_model"] = solve_s
+            summ[f"{MOD}.solve_pareto_front"] = front_s
+            paths = ex.run(qual, setup, summaries=summ, key=f"crev-{fn}-{with_model}")
+            n = 0
+            tag = "incremental model" if with_model else "fresh compilation"
+            for p in paths:
+                if p.outcome[0] != "return":
+                    rep.violation("REV.entry", site, f"outcome ({tag})", "c-revision never raises", extracted=repr(p.outcome[1])[:100], required="return", function=site)
+                    continue
+                n += 1
+                nFP, nFM, Z = decided(p, ("isnone", FPD)), decided(p, ("isnone", FMD)), decided(p, ("truthy", "gpz"))
+                calls = {}
+                for ev, Q in iter_events(p.events):
+                    if ev.kind.startswith("call."):
+                        calls.setdefault(ev.kind[5:], []).append(ev)
+                gpz, fpv, fmv = Sym("gpz", "bool"), ElemV(FPD, "optional", "dict"), ElemV(FMD, "optional", "dict")
+                if not with_model:
+                    cc = calls.get("compile", [])
+                    okc = len(cc) == 1 and cc[0].qual in (f"{MOD}.compile_alt_fast", f"{MOD}.compile_alt") and tuple(cc[0].args) == (refs["rf"], refs["revs"]) and "to_csp" not in calls
+                    rep.check(okc, "REV.entry", site, f"compilation ({tag})", "the constraint system is compiled from the given ranking and conditionals by the fast or the reference compilation (REV.classify)",
+                              extracted=f"{[c.qual for c in cc]} args {[tuple(map(repr, c.args)) for c in cc]}"[:200], required="compile_alt_fast(ranking_function, revision_conditionals)", function=site)
+                    tc = calls.get("translate", [])
+                    okt = len(tc) == 1
+                    if okt:
+                        bd = _bind(ex, f"{MOD}.translate_to_csp", tc[0].args, tc[0].kwargs)
+                        okt = bd.get("compilation") == Sym("COMPILATION") and bd.get("gamma_plus_zero") == gpz and bd.get("fixed_gamma_plus") == fpv and bd.get("fixed_gamma_minus") == fmv
+                    rep.check(okt, "REV.entry", site, f"translation arguments ({tag})", "gamma_plus_zero and both fixed-value maps reach the translation under their own names", extracted=repr([(t.args, t.kwargs) for t in tc])[:240], required="(compilation, gamma_plus_zero, fixed+, fixed-)", function=site)
+                else:
+                    tc = calls.get("to_csp", [])
+                    okt = len(tc) == 1 and "compile" not in calls
+                    if okt:
+                        bd = _bind(ex, f"{CM}.to_csp", tc[0].args, tc[0].kwargs)
+                        okt = bd.get("self") == refs["model"] and bd.get("gamma_plus_zero") == gpz and bd.get("fixed_gamma_plus") == fpv and bd.get("fixed_gamma_minus") == fmv
+                    rep.check(okt, "REV.entry", site, f"translation arguments ({tag})", "with a model the constraint system comes from model.to_csp with the same three settings", extracted=repr([(t.args, t.kwargs) for t in tc])[:240], required="model.to_csp(gamma_plus_zero, fixed+, fixed-)", function=site)
+                sc = calls.get("solve", [])
+                if len(sc) != 1:
+                    rep.violation("REV.entry", site, f"solve ({tag})", "the system is solved once", extracted=f"{len(sc)} call(s)", required="1", function=site)
+                    continue
+                csp_arg = view(p.state, sc[0].args[0]) if sc[0].args else None
+                rep.check(csp_arg == ("list", (("sym", "CSP"),)), "REV.entry", site, f"solved system ({tag})", "the translated constraint system is what is solved", extracted=repr(csp_arg)[:120], required="csp", function=site)
+                mv = sc[0].mv
+                okm = False
+                if isinstance(mv, tuple) and mv[0] == "list" and len(mv[1]) == 1 and mv[1][0][0] == "each":
+                    _, b, fam, g, val = mv[1][0]
+                    want_g = PTRUE if nFM else ("not", ("in", ("elem", b, "key"), FMD))
+                    from ..absvals import NameV
+                    okm = fam == REVS and g == want_g and desc(val) == ("name", ("gamma-_", ("elem", b, "key")))
+                rep.check(okm, "REV.entry", site, f"minimised variables ({tag}; fixed- {'absent' if nFM else 'given'})", "exactly the gamma- of the conditionals without fixed gamma- are minimised, named by the conditional's index",
+                          extracted=repr(mv)[:240], required="[gamma-_<index> for conditionals not in fixed-]", function=site)
+                solved = decided(p, ("solved",))
+                rv = p.outcome[1]
+                if fn == "c_revision":
+                    if solved is False:
+                        rep.check(isinstance(rv, Const) and rv.value is None, "REV.entry", site, f"no model ({tag})", "nothing is returned exactly when the solver found no parameters", extracted=repr(rv)[:80], required="None", function=site)
+                        continue
+                    d = p.state.heap.get(rv.oid) if isinstance(rv, Ref) else None
+                else:
+                    vw = view(p.state, rv)
+                    if solved is False:
+                        rep.check(vw == ("list", ()), "REV.entry", site, f"no model ({tag})", "an infeasible system yields the empty front", extracted=repr(vw)[:80], required="[]", function=site)
+                        continue
+                    o = p.state.heap.get(rv.oid) if isinstance(rv, Ref) else None
+                    d = None
+                    if isinstance(o, HList) and len(o.segs) == 1 and o.segs[0][0] == "one" and isinstance(o.segs[0][1], Ref):
+                        d = p.state.heap.get(o.segs[0][1].oid)
+                if not isinstance(d, HDict) or d.sym != ("model",):
+                    rep.violation("REV.entry", site, f"result ({tag})", "the solver's parameters are returned", extracted=repr(rv)[:80], required="the model mapping", function=site)
+                    continue
+                # patched entries
+                got = set()
+                for e in d.each:
+                    _, b, fam, g, kt, vt = e
+                    kd, vd = _gen(_gen(desc(kt), b), b), desc(vt)
+                    fam_d = fam
+                    got.add((repr(fam_d)[:120], show_pred(g)[:160], repr(desc(kt))[:120], repr(vd)[:120]))
+                def items_of(dd):
+                    return [e for e in d.each if e[2][0] == "members" and isinstance(e[2][1], tuple) and e[2][1][:3] == ("mcall", ("elem", dd, "optional"), "items")]
+                for dd, sign, absent in ((FMD, "-", nFM), (FPD, "+", nFP)):
+                    es = items_of(dd)
+                    if absent:
+                        rep.check(not es, "REV.entry", site, f"fixed gamma{sign} absent ({tag}, gamma_plus_zero={Z})", "nothing is patched without fixed values", extracted=f"{len(es)}", required="0", function=site)
+                        continue
+                    okp = len(es) == 1
+                    if okp:
+                        _, b, fam, g, kt, vt = es[0]
+                        okp = g == PTRUE and desc(kt) == ("name", (f"gamma{sign}_", ("elem", ("part", b, 0), "plain"))) and desc(vt) == ("int", ("elem", ("part", b, 1), "plain"))
+                    rep.check(okp, "REV.entry", site, f"fixed gamma{sign} in the result ({tag}, gamma_plus_zero={Z})", f"every fixed gamma{sign}_i appears in the returned parameters with its fixed value",
+                              extracted=repr([(desc(e[4]), desc(e[5])) for e in es])[:200], required=f"gamma{sign}_i = fixed[i]", function=site)
+                zs = [e for e in d.each if e[2] == REVS]
+                if Z:
+                    okz = len(zs) == 1
+                    if okz:
+                        _, b, fam, g, kt, vt = zs[0]
+                        okz = desc(kt) == ("name", ("gamma+_", ("elem", b, "key"))) and vt == Const(0)
+                    rep.check(okz, "REV.entry", site, f"gamma+ zero in the result ({tag}; fixed+ {'absent' if nFP else 'given'})", "with gamma_plus_zero the returned gamma+ of the unfixed conditionals are 0",
+                              extracted=repr([(desc(e[4]), e[5]) for e in zs])[:200], required="gamma+_i = 0", function=site)
+                else:
+                    rep.check(not zs, "REV.entry", site, f"no defaults ({tag}; fixed+ {'absent' if nFP else 'given'})", "without gamma_plus_zero no parameter is overwritten", extracted=f"{len(zs)}", required="0", function=site)
+            rep.floor(f"{fn} paths ({tag})", n, 9)
+
+
+def to_csp(rep, ex: Explorer):
+    """REV.entry on CRevisionModel.to_csp: the model's own compilation and the three settings reach translate_to_csp."""
+    qual = f"{CM}.to_csp"
+    site = fn_label(ex.prog, qual)
+    refs = {}
+
+    def tcomp(I, fi, args, kwargs, node):
+        I.log("call.to_compilation", node, args=tuple(args))
+        return Sym("MCOMPILATION")
+
+    def trans(I, fi, args, kwargs, node):
+        I.log("call.translate", node, args=tuple(args), kwargs=dict(kwargs))
+        return I.alloc(HList([("sym", "CSP")]))
+
+    def setup(I):
+        m = I.alloc(HObj(CM, {}))
+        refs["m"] = m
+        return [m], {"gamma_plus_zero": Sym("gpz", "bool"), "fixed_gamma_plus": ElemV(FPD, "optional", "dict"), "fixed_gamma_minus": ElemV(FMD, "optional", "dict")}
+
+    summ = dict(wrappers.SUMMARIES)
+    summ[f"{CM}.to_compilation"] = tcomp
+    summ[f"{MOD}.translate_to_csp"] = trans
+    paths = ex.run(qual, setup, summaries=summ, key="crev-to_csp")
+    n = 0
+    for p in paths:
+        if p.outcome[0] != "return":
+            rep.violation("REV.entry", site, "outcome", "to_csp returns", extracted=repr(p.outcome)[:100], required="return", function=site)
+            continue
+        n += 1
+        tc = [ev for ev, Q in iter_events(p.events) if ev.kind == "call.translate"]
+        cc = [ev for ev, Q in iter_events(p.events) if ev.kind == "call.to_compilation"]
+        ok = len(tc) == 1 and len(cc) == 1 and tuple(cc[0].args) == (refs["m"],)
+        if ok:
+            bd = _bind(ex, f"{MOD}.translate_to_csp", tc[0].args, tc[0].kwargs)
+            ok = bd.get("compilation") == Sym("MCOMPILATION") and bd.get("gamma_plus_zero") == Sym("gpz", "bool") and bd.get("fixed_gamma_plus") == ElemV(FPD, "optional", "dict") and bd.get("fixed_gamma_minus") == ElemV(FMD, "optional", "dict")
+        rep.check(ok, "REV.entry", site, "translation arguments", "the model's current compilation and the three settings reach translate_to_csp under their own names", extracted=repr([(t.args, t.kwargs) for t in tc])[:240],
+                  required="translate_to_csp(self.to_compilation(), gamma_plus_zero, fixed+, fixed-)", function=site)
+        vw = view(p.state, p.outcome[1])
+        rep.check(vw == ("list", (("sym", "CSP"),)), "REV.entry", site, "result", "the translated system is returned", extracted=repr(vw)[:100], required="csp", function=site)
+    rep.floor("to_csp paths", n, 1)
+
+
+def check_all(rep, ex: Explorer, tier="quick"):
     wsat_meaning(rep, ex)
     mask_literal(rep, ex, MOD)
     mask_literal(rep, ex, MMOD)
     classify(rep, ex, "compile_alt")
     classify(rep, ex, "compile_alt_fast")
-    model_sequences(rep, ex)
+    if tier == "thorough":
+        model_sequences(rep, ex, nworlds=2)
+    else:
+        two = ("fresh [c1,c2]", "[c1,c2] - remove 2")
+        model_sequences(rep, ex, nworlds=2, only=two)
+        model_sequences(rep, ex, nworlds=1, only=tuple(k for k in SEQUENCES if k not in two))
     translate(rep, ex)
+    encoding(rep, ex)
+    solve(rep, ex)
+    entry(rep, ex)
+    to_csp(rep, ex)
